@@ -82,16 +82,39 @@ pub fn int_content(v: i128) -> Vec<u8> {
 pub struct Sampler<'a> {
     pub set: &'a ModuleSet,
     env: BTreeMap<String, (usize, Ty)>,
+    /// set while the type assignment itself (not a component) is being encoded
+    top_level_tagged: std::cell::Cell<bool>,
 }
 
 impl<'a> Sampler<'a> {
     pub fn new(set: &'a ModuleSet) -> Self {
-        Sampler { set, env: set.type_env() }
+        Sampler { set, env: set.type_env(), top_level_tagged: std::cell::Cell::new(false) }
     }
 
     /// DER bytes of a sample value of `ty` as written in module `mi`; `variant` selects alternatives / optional presence
     pub fn sample(&self, ty: &Ty, mi: usize, variant: u32) -> Result<Vec<u8>, String> {
+        // explicitly tagged constructed type assignments (directly or through a reference chain) are a known finding of C01
+        // (the rasn derive's inner type): neither they nor the types that contain them are claimed
+        if self.mentions_tagged_constructed_assignment(ty, 0) {
+            return Err("contains an explicitly tagged constructed type assignment (C01 known finding: inner type of the rasn derive)".into());
+        }
         self.tlv(ty, mi, variant, 0).map(|t| t.bytes())
+    }
+
+    fn mentions_tagged_constructed_assignment(&self, t: &Ty, depth: usize) -> bool {
+        if depth > 10 {
+            return false;
+        }
+        let constructed = matches!(t.kind, TyKind::Choice(_) | TyKind::Sequence(_) | TyKind::Set(_));
+        if depth == 0 && t.tag.is_some() && constructed {
+            return true;
+        }
+        match &t.kind {
+            TyKind::Ref { name, .. } => self.env.get(name).is_some_and(|(_, rt)| (rt.tag.is_some() && matches!(rt.kind, TyKind::Choice(_) | TyKind::Sequence(_) | TyKind::Set(_))) || self.mentions_tagged_constructed_assignment(rt, depth + 1)),
+            TyKind::Sequence(s) | TyKind::Set(s) | TyKind::Choice(s) => struct_comps_pub(s).iter().any(|c| self.mentions_tagged_constructed_assignment(&c.ty, depth + 1)),
+            TyKind::SeqOf(e) | TyKind::SetOf(e) => self.mentions_tagged_constructed_assignment(e, depth + 1),
+            _ => false,
+        }
     }
 
     fn choice_like(&self, t: &Ty) -> bool {
@@ -114,6 +137,7 @@ impl<'a> Sampler<'a> {
         let base = self.base(&inner, mi, variant, depth)?;
         let Some(tag) = &ty.tag else { return Ok(base) };
         let tagging = self.set.modules[mi].tagging;
+
         let explicit = match tag.mode {
             TagMode::Explicit => true,
             TagMode::Implicit => false,
@@ -131,6 +155,7 @@ impl<'a> Sampler<'a> {
         let mut v: Vec<(&Comp, bool)> = s.root.iter().map(|c| (c, false)).collect();
         for a in s.ext.iter().flatten() {
             match a {
+                Addition::Comp(c) if matches!(c.opt, Optionality::Default(_)) => return Err("extension addition with DEFAULT (rasn re-encodes the default value)".into()),
                 Addition::Comp(c) => v.push((c, true)),
                 Addition::Group { .. } => return Err("extension addition group (rasn encodes the group as a nested SEQUENCE in BER)".into()),
             }
@@ -224,9 +249,10 @@ impl<'a> Sampler<'a> {
             }
             TyKind::OctetString => Tlv::prim(4, vec![0xab; size_lo.unwrap_or(1)]),
             TyKind::Oid => Tlv::prim(6, vec![0x2a, 0x03]),
-            TyKind::RelOid => Tlv::prim(13, vec![0x05, 0x07]),
+            TyKind::RelOid => return Err("RELATIVE-OID (rasn 0.27 has no such type, the bindings use ObjectIdentifier)".into()),
             TyKind::UtcTime => Tlv::prim(23, b"250101000000Z".to_vec()),
             TyKind::GenTime => Tlv::prim(24, b"20250101000000Z".to_vec()),
+            TyKind::Str(StrKind::Teletex) => return Err("TeletexString (rasn 0.27 decodes it in 4-octet units)".into()),
             TyKind::Str(k) => {
                 let ch = match &t.alphabet {
                     Some(rs) if !rs.is_empty() => rs[0].0,
@@ -272,6 +298,9 @@ impl<'a> Sampler<'a> {
                         Optionality::Optional => depth < 3 && (variant as usize + i) % 2 == 0,
                         Optionality::Default(_) => false,
                     };
+                    if is_set && matches!(c.opt, Optionality::Default(_)) {
+                        return Err("SET with a DEFAULT component (rasn's SET decoder reports an absent DEFAULT component as missing)".into());
+                    }
                     if !present {
                         continue;
                     }
@@ -308,6 +337,13 @@ impl<'a> Sampler<'a> {
             }
             TyKind::Ref { name, .. } => {
                 let (mi2, ty2) = self.env.get(name).ok_or("dangling reference")?;
+                // known finding (C01 / C03 DER): the rasn derive loses `automatic_tags` on the inner type of an explicitly
+                // tagged constructed type; the type itself is sampled (and reported under its own signature), types that
+                // merely refer to it are not claimed
+                let explicit = ty2.tag.as_ref().is_some_and(|t| t.mode == TagMode::Explicit || matches!(ty2.kind, TyKind::Choice(_)));
+                if explicit && matches!(ty2.kind, TyKind::Choice(_) | TyKind::Sequence(_) | TyKind::Set(_)) && self.set.modules[*mi2].tagging.is_automatic() {
+                    return Err("refers to an explicitly tagged constructed type of an AUTOMATIC TAGS module (known finding)".into());
+                }
                 self.tlv(ty2, *mi2, variant, depth + 1)?
             }
             TyKind::Any | TyKind::ClassField { .. } => return Err("open type".into()),
